@@ -5,6 +5,7 @@ import (
 	"grog/internal/config"
 	"grog/internal/dag"
 	"grog/internal/model"
+	"grog/internal/verifhook"
 	"strings"
 )
 
@@ -59,6 +60,7 @@ func (s *Selector) selectAllAncestorsForBuild(
 	node model.BuildNode,
 ) error {
 	for _, ancestor := range graph.GetDependencies(node) {
+		verifhook.Count("select.ancestors")
 		nextChain := append(append([]string{}, depChain...), ancestor.GetLabel().String())
 		if !nodeMatchesPlatform(ancestor) {
 			depChainStr := strings.Join(nextChain[1:], " -> ")
